@@ -42,7 +42,7 @@ def _classify(op, a, b):
     return ("view-differs", "")
 
 PROP = {
-    "thm": ["Umya.Thm.C02", "Umya.Thm.C02Bytes", "Umya.Thm.C02Sheet", "Umya.Thm.C02Book", "Umya.Thm.C02Gen", "Umya.Thm.C02SheetBytes", "Umya.Thm.C02Pkg", "Umya.Thm.C02PkgCmt"],
+    "thm": ["Umya.Thm.C02", "Umya.Thm.C02Bytes", "Umya.Thm.C02Sheet", "Umya.Thm.C02Book", "Umya.Thm.C02Gen", "Umya.Thm.C02SheetBytes", "Umya.Thm.C02Pkg", "Umya.Thm.C02PkgCmt", "Umya.Thm.C02PkgTbl"],
     "harness": "c02",
     "level": "proof",
     "stateful": True,
@@ -105,6 +105,14 @@ PROP = {
                   "with the sheet list, bodies (hyperlinks each on its own cell with its own target), names and active tab, under BookC.WF (as BookP.WF; the r:id of legacyDrawing is proved, not assumed); total writer "
                   "C02_cmt_package_written; without any comment the package is the plain model's (C02_cmt_plain_same). Comments are not part of the decoder's BookV: the theorems say their parts disturb nothing; that "
                   "the comments come back on the same cells is C06. "
+                  "SHEETS WITH TABLES (Umya/Model/PackageNodeTbl.lean; Thm/C02PkgTbl.lean) - PARTIAL, relationship level only: the model has the table part names / numbers (one counter over the sheets), the "
+                  "table content type and Overrides, the sheet's relationships (hyperlinks, vmlDrawing, one table relationship per table, comments - shifted by the number of tables), the <tableParts> child and the "
+                  "package skeleton (skeletonT, tied on every run by `c02 pkgbridge`). Proved, for ANY package whose sheetK.xml.rels is the part the model writes (any links, any number of tables, with and without comments): what "
+                  "the decoder's relsOf reads (C02_tbl_sheet_rels_read), the comments id shift (C02_tbl_comments_rel_shifted), ids pairwise different (C02_tbl_rel_ids_unique), the j-th tablePart r:id finds the j-th table "
+                  "relationship and only it, whose target resolves from the sheet part to xl/tables/table{n}.xml (C02_tbl_table_parts_resolve); numbers 1..sum without repetition and distinct part names "
+                  "(C02_tbl_numbers_distinct, C02_tbl_part_names_distinct); without tables the pieces are those of the comments model (C02_tbl_plain_same_partial). NOT proved for tables: the whole-package statements "
+                  "(content-type coverage through the decoder's look-up, every relationship target IS a part of the package, decode pkg = (some book, []) with the tables per sheet) - there is no writePackageT yet; the table "
+                  "part TREE (table.rs) is not modelled. "
                   "C02_book_decodes_partial (any package holding the rendered workbook parts, path resolution as hypothesis) stays as the more general, weaker statement; C02_sheet_names_case_fails is the witness of the defect repaired by fix 95713cc. "
                   "Tie to the code on every run: request `c02 sheetbridge` (trees of sheetN.xml / rels / workbook.xml / workbook.xml.rels / worksheet Overrides against the models, hypotheses of C02_sheet_decodes evaluated "
                   "on the real frame and its conclusion checked on the real package) and request `c02 pkgbridge` (generated workbooks incl. a dedicated generator with 1..6 sheets, with / without any string, "
@@ -120,8 +128,8 @@ PROP = {
                   "to resolve, Frame.ok is asked of the written frame, ridsOk only of the remaining opaque children, which may name hyperlink relationships only), the children of <workbook> other than sheets / definedNames "
                   "(WbFrame.ok; bookViews with activeTab is one of them). Outside the package model (validated per file by the executed reader only): custom document properties, macros (vbaProject.bin, macro "
                   "content type), ribbon, pivot caches, raw (lazily loaded, not deserialized) sheets and every part a loaded workbook carries verbatim, and sheets with drawings, charts, images, OLE "
-                  "objects (their VML shapes too), printer settings or tables (each adds parts, Default extensions, Overrides and sheet relationships after the hyperlink ones; a table relationship would stand "
-                  "between the vmlDrawing and the comments relationship). In the comments model the trees of the VML / comments parts are C06's writer models (tied by C06's `cmt` requests); C02 uses only that they are "
+                  "objects (their VML shapes too) or printer settings (each adds parts, Default extensions, Overrides and sheet relationships after the hyperlink ones); tables are inside the skeleton / "
+                  "relationship model only (see above). In the comments model the trees of the VML / comments parts are C06's writer models (tied by C06's `cmt` requests); C02 uses only that they are "
                   "trees, their names, content types, relationships and numbers. The model lists the VML / comments parts after the sheet parts; the code interleaves them with the sheet relationship parts (order of zip "
                   "entries: below the comparison). The package theorems are about element TREES in the parts "
                   "(Part.xml); the step characters -> tree is C02_bytes_parse / C02_sheet_bytes_decode for the tag-level model, and `c02 part ... w` (render=same) per real part. The style table behind the s index, "
@@ -146,7 +154,9 @@ PROP = {
                         "C02_active_tab_in_range", "C02_package_no_diagnostics", "C02_book_decodes", "C02_package_written",
                         "C02_cmt_free_index_smallest", "C02_cmt_numbers_own_pair", "C02_cmt_content_types_cover", "C02_cmt_content_types_parts", "C02_cmt_package_rels_resolve",
                         "C02_cmt_sheet_rels_own_parts", "C02_cmt_rel_ids_unique", "C02_cmt_legacy_drawing_resolves", "C02_cmt_hyperlinks_unchanged",
-                        "C02_cmt_package_no_diagnostics", "C02_cmt_book_decodes", "C02_cmt_package_written", "C02_cmt_plain_same"],
+                        "C02_cmt_package_no_diagnostics", "C02_cmt_book_decodes", "C02_cmt_package_written", "C02_cmt_plain_same",
+                        "C02_tbl_sheet_rels_read", "C02_tbl_comments_rel_shifted", "C02_tbl_rel_ids_unique", "C02_tbl_table_parts_resolve",
+                        "C02_tbl_numbers_distinct", "C02_tbl_part_names_distinct", "C02_tbl_plain_same_partial"],
     "rule": "case = one workbook (generated from a per-case seed, or a corpus file re-saved) written with the standard or the light writer; every part is one request; "
             "the `decode` request compares violations (must be none) and the decoded view; the final `bridge` request carries the cell / <si> facts scanned from the real parts "
             "and (generated workbooks) the in-memory cells, and must answer ok; the `sheetbridge` and `pkgbridge` requests (generated workbooks) carry the in-memory sheets / workbook and must answer ok. non-trivial = every part / decode / bridge request; distinct = distinct request line",
@@ -164,8 +174,11 @@ PROP = {
     "partial_clauses": ["package: proved (decode pkg = (some book, []), all diagnostics empty) for the MODELLED package skeleton = workbooks of n sheets each plain or with comments (VML part, comments part, their "
                         "relationships, legacyDrawing, vml Default, comments Override); workbooks with custom properties, macros, ribbon, pivot "
                         "caches, raw sheets, or sheets with drawings / charts / images / OLE objects / printer settings / tables are outside the package model and are validated per file "
-                        "(independent reader executed on every part; pkgbridge checks that the model skeleton is contained in theirs); tables were not brought into the model (they need tableParts in the sheet theorem: "
-                        "Frame.ok excludes it, decodeSheet returns the tables)",
+                        "(independent reader executed on every part; pkgbridge checks that the model skeleton is contained in theirs); TABLES are in the model at skeleton / relationship level only (PackageNodeTbl.lean, tied by pkgbridge: parts, content types, Overrides, relationships, "
+                        "tableParts r:ids, numbering across sheets) with theorems about the sheet's relationships part as read by the decoder, the tablePart ids and the numbering (C02_tbl_*); NOT proved: a whole package with table parts "
+                        "(no writePackageT / assembleT), so no C02_tbl_content_types_cover / C02_tbl_package_rels_resolve (target is a part of the package) / C02_tbl_book_decodes (tables returned per sheet; the sheet theorem's "
+                        "Frame.ok still excludes tableParts at schema position 37), no whole-package C02_tbl_plain_same (only C02_tbl_plain_same_partial on the pieces); the table part tree (table.rs: id, name, displayName, ref, "
+                        "columns) is not modelled, and uniqueness of table names / displayNames across the book is neither proved nor refuted (the writer takes the names from the Table objects unchecked; ids = part numbers are distinct)",
                         "comments: the package theorems say the comments / VML parts are present, typed, numbered, related and harmless to the decoded workbook; the independent decoder does not read comments "
                         "(BookV has none), so 'the comments are the workbook's' is C06's statement, not C02's; the bodies of both parts enter the byte-level claim only through `c02 part ... w` per file (VML parts are not claimed there)",
                         "opaque bodies: docProps/app.xml, docProps/core.xml, theme, styles are arbitrary trees in the package theorems (name, content type, relationship only; of styles the cellXfs / dxfs counts); "
